@@ -20,6 +20,9 @@ from .model import EnumVal, Module, NotConst, Repo, dotted, norm_text
 _PLAIN = (int, float, bool, str, bytes, type(None), EnumVal)
 
 
+_GLOBAL_OBJECTS: dict = {}
+
+
 class Unsupported(Exception):
     pass
 
@@ -89,12 +92,19 @@ class Mini:
         if isinstance(e, ast.Name):
             if e.id in env:
                 return env[e.id]
+            if e.id in _GLOBAL_OBJECTS.get(id(self.repo), {}).get(self.module.name, {}):
+                return _GLOBAL_OBJECTS[id(self.repo)][self.module.name][e.id]
             try:
                 v = self.repo.fold(self.module, e)
             except NotConst:
                 raise Unsupported(f"unknown name {e.id}")
             if isinstance(v, _PLAIN):
                 return v
+            if type(v).__name__ == "DCVal" and all(isinstance(x, _PLAIN) for x in v.fields.values()):
+                # a module-level dataclass instance is ONE object shared by every reader (mutations and identity are visible)
+                obj = FakeObj(v.cls.name, **dict(v.fields))
+                _GLOBAL_OBJECTS.setdefault(id(self.repo), {}).setdefault(self.module.name, {})[e.id] = obj
+                return obj
             if isinstance(v, (list, tuple)) and all(isinstance(x, _PLAIN) for x in v):
                 return list(v) if isinstance(v, list) else tuple(v)
             if isinstance(v, dict) and all(isinstance(k, _PLAIN) and isinstance(x, _PLAIN) for k, x in v.items()):
@@ -230,6 +240,13 @@ class Mini:
                         return getattr(obj, e.func.attr)(*args)
                     except IndexError as ex:
                         raise _PyRaise("IndexError")
+            if d.split(".")[-1] == "replace" and len(e.args) == 1 and (self.repo.qual(self.module, e.func) or "") == "dataclasses.replace":
+                obj = self.ev(e.args[0], env)
+                if isinstance(obj, FakeObj):
+                    vals = {k: v for k, v in obj.__dict__.items() if k != "_cls"}
+                    vals.update({k.arg: self.ev(k.value, env) for k in e.keywords if k.arg})
+                    return FakeObj(obj._cls, **vals)  # a NEW object
+                raise Unsupported("dataclasses.replace of a non-object")
             if d in _FUN and not e.keywords:
                 return _FUN[d](*[self.ev(a, env) for a in e.args])
             if d in _FUN and d == "round" and all(k.arg == "ndigits" for k in e.keywords):
@@ -327,6 +344,8 @@ class Mini:
                     elif isinstance(t, ast.Attribute) and isinstance(t.value, ast.Name) and t.value.id == "self":
                         self.selfattrs[norm_text(t)] = v
                         env[norm_text(t)] = v
+                    elif isinstance(t, ast.Attribute) and isinstance(self._try_ev(t.value, env), FakeObj):
+                        self._try_ev(t.value, env).__dict__[t.attr] = v  # attribute store on a stand-in object (in place)
                     else:
                         self._bind(t, v, env)
                 continue
@@ -403,6 +422,12 @@ class Mini:
                 name = (dotted(s.exc.func if isinstance(s.exc, ast.Call) else s.exc) or "?").split(".")[-1] if s.exc is not None else "?"
                 raise _PyRaise(name)
             raise Unsupported(f"statement {type(s).__name__}: {norm_text(s)[:60]}")
+
+    def _try_ev(self, e, env):
+        try:
+            return self.ev(e, env)
+        except Unsupported:
+            return None
 
     def _bind(self, t, v, env):
         if isinstance(t, ast.Name):
